@@ -43,6 +43,20 @@ pub struct Compare {
     pub reenter_probe: bool,
 }
 
+/// readable form of a program case for evidence samples
+pub fn prog_view(c: &ProgCase) -> serde_json::Value {
+    let order = entry_order(c.lines.len(), c.order_seed);
+    serde_json::json!({
+        "program_as_entered": order.iter().map(|i| print_line(&c.lines[*i])).collect::<Vec<_>>(),
+        "rnd_seed": c.seed,
+        "replies": c.replies.iter().map(|r| r.text.clone()).collect::<Vec<_>>(),
+        "break+CONT_at_ticks": c.breaks,
+        "break_while_awaiting_at_requests": c.await_breaks,
+        "commands_at_STOPs": c.stop_cmds,
+        "tracing": c.tracing, "warnings": c.warnings, "tick_cap": c.tick_cap,
+    })
+}
+
 pub fn entry_order(n: usize, seed: u64) -> Vec<usize> {
     let mut v: Vec<usize> = (0..n).collect();
     let mut r = Rng::new(seed);
